@@ -71,18 +71,23 @@ class HalfRec(RecProtocol):
 def configs(tier):
     # the fourth configuration: a burst of 51..80 opens of one subprotocol
     # arriving before the peer's listener exists
+    # the fifth: transports with bounded send buffers that drain only when
+    # the scheduler says so (back-pressure reaches Outbound), more losses
     return [{"half": False}, {"half": False}, {"half": True},
-            {"half": False, "burst": True}]
+            {"half": False, "burst": True}, {"half": False, "staged": True}]
 
 
 def run_one(seed, tape, opts):
     exp = {"A": tape.pick(EXPECTED, "expA"), "B": tape.pick(EXPECTED, "expB")}
     half = bool(opts.get("half"))
-    w = cc.setup(tape, dict(opts, staged=False), relay_ok=False, ping=60.0,
+    staged = bool(opts.get("staged"))
+    w = cc.setup(tape, dict(opts, staged=staged), relay_ok=False, ping=60.0,
                  expected=(exp["A"], exp["B"]))
     sim = w.sim
+    if not half and tape.choose(2, "greeter") == 0:
+        cc.install_greeter(w, tape)
     sim.allow_advance = False     # nothing here depends on deadlines
-    faults = cc.L2Faults(w, tape, tape.choose(3, "fb"))
+    faults = cc.L2Faults(w, tape, tape.choose(5 if staged else 3, "fb"))
     faults.candidate_cuts = False
     cls = HalfRec if half else RecProtocol
     scripts = {}
